@@ -407,6 +407,16 @@ def run(ctx):
         c02.method_row(ctx, w, meth, arms, py_ops, dec)
     c02.slot_budget(ctx, py)
     super_calls_same_method(ctx, py)
+    # the stateful interpreters only accept a Load of something published or saved before: the gamma phase must publish the axioms
+    # of ALL imported modules (to any depth) or a proof that the conclusion-only interpreter accepts trips every tracker (shared
+    # with C03); and the pretty printer's step decorator must hand the call on to the next implementation with the same arguments
+    # (shared with C07) - through `super(<the class>, self)`, not `super(type(self), self)`, which recurses under a subclass
+    from . import c03, c07
+    c03.loop_shape(ctx, py)
+    ctx.ob('override-chain', 'pretty-decorator-forwards', c07.pretty_decorator_forwards(py),
+           'the @pretty decorator does not return the value of the next implementation (super(PrettyPrintingInterpreter, self)) called with '
+           'the same arguments: the pretty-printing interpreter (or a subclass of it) means something else than the others',
+           py.where('pretty_printing_interpreter', py.cls('PrettyPrintingInterpreter').node))
     # an interpreter whose state is shared between its instances behaves differently from the others once a second instance
     # exists (its symbol numbering / memory continues): the instance state of every interpreter class is per instance
     from .c18 import shared_class_state
